@@ -350,7 +350,8 @@ def _never_none(v) -> bool:
         return v[1] in ("-", "~")
     if k == "call":
         return v[1] in (("g", "int"), ("g", "float"), ("g", "len"), ("g", "str"), ("g", "bytes"), ("g", "bool"), ("g", "abs"), ("g", "round"),
-                        ("ext", "math", "ceil"), ("ext", "math", "floor"), ("ext", "math", "log"), ("ext", "math", "log2"))
+                        ("ext", "math", "ceil"), ("ext", "math", "floor"), ("ext", "math", "log"), ("ext", "math", "log2")) or \
+            (v[1][0] == "m" and v[1][2] in ("encode", "decode", "digest", "hexdigest", "lower", "upper", "strip", "tobytes", "to_bytes", "format", "join"))
     return False
 
 
@@ -439,6 +440,13 @@ def _norm_node(n):
         if is_num_const(a) and is_num_const(b) and op in CMP_FLIP:
             return C({"<": a[1] < b[1], "<=": a[1] <= b[1], ">": a[1] > b[1], ">=": a[1] >= b[1],
                       "==": a[1] == b[1], "!=": a[1] != b[1]}[op])
+        if op in ("is", "isnot") and b == ("c", None) and a[0] == "phi":
+            # (x if c else None) is None  ==  not c, when x cannot be None (and the mirrored forms)
+            ta, tb = a[2], a[3]
+            if _never_none(ta) and tb == ("c", None):
+                return ("un", "not", a[1]) if op == "is" else a[1]
+            if ta == ("c", None) and _never_none(tb):
+                return a[1] if op == "is" else ("un", "not", a[1])
         if op in ("is", "isnot") and is_const(b) and b[1] in (True, False) and not is_const(a):
             # `x is False` keeps its spelling (x may be non-bool); no rewrite
             return n
